@@ -9,7 +9,7 @@ package main
 // file system; the same abstract tree is sent to the model. Compared: see Corr/PIPE.v.
 //
 // Domain restrictions of the generator (each is a stated scope limit of the model, design.d/PIPE.md):
-//   no patches / images / replicas / replacements / vars / components / configurations / helm / plugins,
+//   no patches / replacements / vars / components / configurations / helm / plugins,
 //   generators with literal sources only (all behaviours, generatorOptions), no immutable;
 //   no `kind: List`, no empty documents, no anchors, no comments,
 //   no internal.config.kubernetes.io annotations in inputs, no ',' in names (PrevIds panic, C12 finding).
@@ -39,7 +39,7 @@ import (
 
 func init() {
 	register("PIPE", propDef{
-		header: "From KV Require Import Corr.PIPE.\nFrom KV Require Labels.\nFrom KV Require Gen.LegacyOrder.\n" +
+		header: "From KV Require Import Corr.PIPE.\nFrom KV Require Labels Res.Replica Res.Image.\nFrom KV Require Gen.LegacyOrder.\n" +
 			"Open Scope string_scope.\n",
 		caseType:   "casePIPE",
 		mismatchFn: "mismatchesPIPE",
@@ -97,6 +97,19 @@ type pipeGenOpts struct {
 	DisableHash bool              `json:"disableHash"`
 }
 
+// replicas: / images: entries of one kustomization
+type pipeReplica struct {
+	Name  string `json:"name"`
+	Count int64  `json:"count"`
+}
+type pipeImage struct {
+	Name      string `json:"name"`
+	NewName   string `json:"newName,omitempty"`
+	TagSuffix string `json:"tagSuffix,omitempty"`
+	NewTag    string `json:"newTag,omitempty"`
+	Digest    string `json:"digest,omitempty"`
+}
+
 type pipeFile struct {
 	Name string   `json:"name"`
 	Docs []string `json:"docs"` // YAML text of each document
@@ -118,6 +131,8 @@ type pipeDir struct {
 	CmGens       []pipeGenSpec     `json:"cmGens"`
 	SecGens      []pipeGenSpec     `json:"secGens"`
 	GenOpts      *pipeGenOpts      `json:"genOpts,omitempty"`
+	Replicas     []pipeReplica     `json:"replicas,omitempty"`
+	Images       []pipeImage       `json:"images,omitempty"`
 	Ents         []*pipeEnt        `json:"ents"`
 	parent       *pipeDir
 	depth        int
@@ -761,6 +776,46 @@ func pipeGenCase(rng *Rng, rules []krusty.VerifC03Rule) *pipeCase {
 			}
 		}
 	}
+	// replicas / images
+	for _, d := range g.dirs {
+		if rng.Chance(18) {
+			var names []string
+			for _, o := range g.objs {
+				if !o.Gen && (o.Layer == d || isUnder(o.Layer, d)) &&
+					(o.Kind == "Deployment" || o.Kind == "StatefulSet") {
+					names = append(names, o.Name)
+				}
+			}
+			name := "" // no entry
+			if len(names) > 0 && rng.Chance(92) {
+				name = names[rng.Intn(len(names))]
+			} else if rng.Chance(10) {
+				name = "no-such-workload" // error branch, kept rare
+			}
+			if name != "" {
+				d.Replicas = append(d.Replicas, pipeReplica{Name: name, Count: int64(rng.Intn(9))})
+			}
+		}
+		if rng.Chance(22) {
+			n := 1 + rng.Intn(2)
+			for i := 0; i < n; i++ {
+				im := pipeImage{Name: rng.Pick([]string{"nginx", "busybox", "nginx", "registry.io/app", "ngin"})}
+				switch rng.Intn(5) {
+				case 0:
+					im.NewTag = rng.Pick([]string{"1.9", "v2", "latest"})
+				case 1:
+					im.NewName = rng.Pick([]string{"my/nginx", "other"})
+				case 2:
+					im.Digest = "sha256:" + strings.Repeat("ab", 8)
+				case 3:
+					im.NewName, im.NewTag = "reg.local/x", "9"
+				default:
+					im.TagSuffix = "-dev"
+				}
+				d.Images = append(d.Images, im)
+			}
+		}
+	}
 	// files and entries
 	for _, d := range g.dirs {
 		var mine []*pipeObj
@@ -941,6 +996,33 @@ func pipeRenderDir(pc *pipeCase, d *pipeDir, path string, top bool) {
 		}
 		k["secretGenerator"] = l
 	}
+	if len(d.Replicas) > 0 {
+		var l []interface{}
+		for _, rp := range d.Replicas {
+			l = append(l, map[string]interface{}{"name": rp.Name, "count": rp.Count})
+		}
+		k["replicas"] = l
+	}
+	if len(d.Images) > 0 {
+		var l []interface{}
+		for _, im := range d.Images {
+			m := map[string]interface{}{"name": im.Name}
+			if im.NewName != "" {
+				m["newName"] = im.NewName
+			}
+			if im.TagSuffix != "" {
+				m["tagSuffix"] = im.TagSuffix
+			}
+			if im.NewTag != "" {
+				m["newTag"] = im.NewTag
+			}
+			if im.Digest != "" {
+				m["digest"] = im.Digest
+			}
+			l = append(l, m)
+		}
+		k["images"] = l
+	}
 	if d.GenOpts != nil {
 		o := map[string]interface{}{}
 		if d.GenOpts.DisableHash {
@@ -1110,9 +1192,17 @@ func pipeCoqDir(d *pipeDir, vals map[string]bool) (string, bool) {
 		note(d.GenOpts.Annos)
 		gopts = fmt.Sprintf("(Some (mkPGopts %s %s %s))", pipeCoqPairs(d.GenOpts.Labels), pipeCoqPairs(d.GenOpts.Annos), coqBool(d.GenOpts.DisableHash))
 	}
-	dirs := fmt.Sprintf("(mkPDirsG %s %s %s [%s] %s %s [%s] [%s] %s)", coqStr(d.Ns), coqStr(d.Prefix), coqStr(d.Suffix),
+	var rps, ims []string
+	for _, rp := range d.Replicas {
+		rps = append(rps, fmt.Sprintf("(Replica.mkReplica %s %s)", coqStr(rp.Name), coqStr(fmt.Sprint(rp.Count))))
+		vals[fmt.Sprint(rp.Count)] = true
+	}
+	for _, im := range d.Images {
+		ims = append(ims, fmt.Sprintf("(Image.mkImage %s %s %s %s %s)", coqStr(im.Name), coqStr(im.NewName), coqStr(im.TagSuffix), coqStr(im.NewTag), coqStr(im.Digest)))
+	}
+	dirs := fmt.Sprintf("(mkPDirsX %s %s %s [%s] %s %s [%s] [%s] %s [%s] [%s])", coqStr(d.Ns), coqStr(d.Prefix), coqStr(d.Suffix),
 		strings.Join(labels, "; "), pipeCoqPairs(d.CommonLabels), pipeCoqPairs(d.CommonAnnos),
-		strings.Join(cm, "; "), strings.Join(sec, "; "), gopts)
+		strings.Join(cm, "; "), strings.Join(sec, "; "), gopts, strings.Join(rps, "; "), strings.Join(ims, "; "))
 	return fmt.Sprintf("(PDir %s %s [%s])", coqStr(d.Name), dirs, strings.Join(ents, "; ")), true
 }
 
@@ -1297,6 +1387,8 @@ func pipeCountKinds(r *Run, d *pipeDir, depth int, maxDepth *int, ndirs *int) {
 	used("configMapGenerator", len(d.CmGens) > 0)
 	used("secretGenerator", len(d.SecGens) > 0)
 	used("generatorOptions", d.GenOpts != nil)
+	used("replicas:", len(d.Replicas) > 0)
+	used("images:", len(d.Images) > 0)
 	for _, e := range d.Ents {
 		if e.File != nil {
 			for _, y := range e.File.Docs {
@@ -1360,6 +1452,8 @@ func pipeErrKind(msg string) string {
 		return "generator-repeated-key"
 	case strings.Contains(msg, "conflicting fieldspecs") || strings.Contains(msg, "failed to merge"):
 		return "label-fieldspec-conflict"
+	case strings.Contains(msg, "does not match a config with the following GVK"):
+		return "replica-no-match"
 	case strings.Contains(msg, "cannot merge or replace"):
 		return "merge-target-missing"
 	case strings.Contains(msg, "behavior must be merge or replace"):
